@@ -17,6 +17,10 @@ class Unknown(Exception):
     """not a closed constant expression"""
 
 
+class LookupFailed(Unknown):
+    """a table lookup with a folded key raised (KeyError): the key is missing from the table"""
+
+
 class _Opaque(object):
     """placeholder for a value we refuse to fold (kept out of results)"""
 
@@ -96,6 +100,10 @@ def fold(node, env=None, resolver=None):
             ch = attr_chain(n)
             if ch is not None and resolver is not None and ch[0] not in env:
                 return resolver(ch)
+            if n.attr in ("__getitem__", "get"):
+                v = f(n.value)
+                if isinstance(v, dict):
+                    return getattr(v, n.attr)
             raise Unknown(ast.unparse(n))
         if isinstance(n, ast.Tuple):
             return tuple(_seq(n.elts))
@@ -278,6 +286,37 @@ def fold(node, env=None, resolver=None):
                 return impl(*args, **kwargs)
             except Exception as e:
                 raise Unknown(str(e))
+        fname = ast.unparse(fn)
+        if fname in ("chain.from_iterable", "itertools.chain.from_iterable") and len(args) == 1:
+            return [y for x in args[0] for y in x]
+        if fname in ("chain", "itertools.chain"):
+            return [y for x in args for y in x]
+        if isinstance(fn, ast.Attribute) and fn.attr in ("__getitem__", "get"):
+            try:
+                recv0 = f(fn.value)
+            except Unknown:
+                recv0 = None
+            if isinstance(recv0, dict):
+                try:
+                    return getattr(recv0, fn.attr)(*args)
+                except Exception as e:
+                    raise Unknown("lookup failed: {!r}".format(e))
+        if isinstance(fn, ast.Name) and fn.id not in _PURE_BUILTINS:
+            # a name bound (in env / module) to the bound method of a folded table
+            try:
+                fv = f(fn)
+            except Unknown:
+                fv = None
+            if (
+                fv is not None
+                and callable(fv)
+                and getattr(fv, "__self__", None).__class__ is dict
+                and getattr(fv, "__name__", "") in ("__getitem__", "get")
+            ):
+                try:
+                    return fv(*args)
+                except Exception as e:
+                    raise LookupFailed(repr(e))
         if isinstance(fn, ast.Attribute):
             recv = f(fn.value)
             name = fn.attr
